@@ -858,6 +858,14 @@ def r8(ctx):
     ctx.floor("C02.R8", 2)
 
 
+def r9(ctx):
+    """what the replica offers to its store on behalf of a local write or deletion does not depend on what the store holds at
+    that moment (a deletion of a prefix under which nothing is stored yet still writes its marker: an older entry below it may
+    arrive later, and the held state must not depend on that order) - Replica::insert / delete_prefix evaluated (= C03.R9)"""
+    from . import C03
+    ctx.share("C02.R9", lambda c: C03.local_authoring(c, "C03.R9"), "C03.R9", floor=7)
+
+
 def run(ctx):
     ctx.run_rule("C02.R1", r1)
     ctx.run_rule("C02.R2", r2)
@@ -866,4 +874,5 @@ def run(ctx):
     ctx.run_rule("C02.R5", r5)
     ctx.run_rule("C02.R6", r6)
     ctx.run_rule("C02.R7", r7)
+    ctx.run_rule("C02.R9", r9)
     ctx.run_rule("C02.R8", r8)
